@@ -262,6 +262,10 @@ fn optimize_message_hash<H: HashChain>(
     randomizer: &mut [u8],
     message: Option<&[u8]>,
 ) {
+    // verification hook: route scope / spawn / channel through the controlled scheduler
+    #[cfg(hbs_lms_verif_sched)]
+    use crate::verif_hooks::sched::{scope, unbounded};
+
     let message = message
         .map(|message: &[u8]| ArrayVec::try_from(message).unwrap())
         .unwrap_or_default();
@@ -306,6 +310,10 @@ fn thread_optimize_message_hash<H: HashChain>(
     fast_verify_cached: &FastVerifyCached,
     message: &ArrayVec<[u8; MAX_LMS_PUBLIC_KEY_LENGTH]>,
 ) -> (u16, ArrayVec<[u8; MAX_HASH_SIZE]>) {
+    // verification hook: deterministic stand-in for the operating system's generator
+    #[cfg(hbs_lms_verif_sched)]
+    use crate::verif_hooks::sched::OsRng;
+
     let mut max_hash_iterations = 0;
 
     let mut trial_randomizer: ArrayVec<[u8; MAX_HASH_SIZE]> = ArrayVec::new();
